@@ -104,6 +104,8 @@ def h(cfg):
     check(C.__dict__.get('release') == 'r1' and C.__dict__.get('owner_attr') is U.keys[0], 'C10 WBS attributes not carried over')
     check_all(items)
     # independence: one arbitrary mutation on one side must not show on the other
+    if not cfg.get('mutate', True):
+        return
     side = choose('mutate', 2)
     U2 = Universe()
     U2.shape, U2.N, U2.nW = shape, U.N, 1
@@ -146,4 +148,4 @@ def copy_snapshot(C, cmap, cix, uix):
 def harnesses(tier):
     if tier == 'quick':
         return [{'name': 'copy-N3', 'fn': h, 'cfg': {'N': 3}}]
-    return [{'name': 'copy-N4', 'fn': h, 'cfg': {'N': 4}}]
+    return [{'name': 'copy-N4-structure', 'fn': h, 'cfg': {'N': 4, 'mutate': False}}, {'name': 'copy-N3', 'fn': h, 'cfg': {'N': 3}}]
